@@ -23,7 +23,7 @@ INTERNAL_ASSERTS = {
     "ellipticcurve:PointJacobi.mul_add": "NAF digits are in {-1, 0, 1}: the else-branch after == 0 and < 0 tests is > 0",
     "ellipticcurve:Point.__init__": "legacy affine constructor: results of the group formulas lie on the curve (algebra, not decided here)",
     "ellipticcurve:Point.__add__": "both operands on the same curve: internal callers add a point to itself / its negation",
-    "ellipticcurve:*leftmost_bit": "the bit-scanning helper of the legacy multiplication (nested in Point.__mul__ or wherever it is moved) is called with 3*e for e > 0",
+    "ellipticcurve:*leftmost_bit*": "the bit-scanning helper of the legacy multiplication (nested in Point.__mul__ or wherever it is moved) is called with 3*e for e > 0",
     "numbertheory:factorization": "type precondition of a public helper outside every decoder cone",
     "numbertheory:phi": "deprecated helper outside every cone",
     "numbertheory:order_mod": "deprecated helper outside every cone",
